@@ -439,6 +439,41 @@ func c08Leaves(v ssa.Value) []*Expr {
 	return out
 }
 
+// c08ParamCallerArgs: when the leaf is a parameter of an unexported, top-level
+// function whose every use in the module is a direct call (a piece split off from
+// the function that produced the value), the argument passed for it at EVERY call
+// site; nil for anything else (exported functions, closures, functions also taken
+// as a value, no call site) — such a leaf is judged as it stands.
+func (c *Ctx) c08ParamCallerArgs(ll *Expr) []ssa.Value {
+	if ll == nil || ll.K != EParam {
+		return nil
+	}
+	p, _ := ll.V.(*ssa.Parameter)
+	if p == nil || p.Parent() == nil || p.Parent().Parent() != nil {
+		return nil
+	}
+	f := p.Parent()
+	fo := funcObjOf(f)
+	idx := -1
+	for i, q := range f.Params {
+		if q == p {
+			idx = i
+		}
+	}
+	if fo == nil || fo.Exported() || idx < 0 {
+		return nil
+	}
+	var out []ssa.Value
+	for _, s := range c.CallSites(fo) {
+		cc := callCommon(s.Instr)
+		if s.Kind == "ref" || cc == nil || cc.IsInvoke() || idx >= len(cc.Args) {
+			return nil
+		}
+		out = append(out, cc.Args[idx])
+	}
+	return out
+}
+
 func c08ExprList(es []*Expr) string {
 	var ss []string
 	for _, e := range es {
@@ -562,7 +597,11 @@ type c08FoldOpt struct {
 	Skip  []Barrier      // the only legitimate reasons for not applying an alternative that is not available on a path
 	Extra []Barrier      // additional edges accepted for taking a candidate (e.g. "first element")
 	Acc   *ssa.Parameter // helper analysis: the parameter that plays the accumulator
-	depth int
+	// Producers (opt-in, for rules that judge the candidates' own shape): a candidate that is
+	// the result of a same-package helper which lowers none of its parameters is replaced by
+	// what that helper returns (c08HelperProduces); off, such a call stays one opaque term.
+	Producers bool
+	depth     int
 }
 
 // c08Term is one folded candidate, described in the analysed function's terms
@@ -615,6 +654,34 @@ func (c *Ctx) c08HelperStep(fn *ssa.Function, idx, depth int) ([]c08Term, bool) 
 		}
 		if kept && len(sinks) > 0 {
 			terms, probs, _ := c.c08FoldCore(sinks, c08FoldOpt{Acc: acc, depth: depth})
+			if len(probs) == 0 && len(terms) > 0 {
+				info.ok, info.terms = true, terms
+			}
+		}
+	}
+	c08HelperMemo[k] = info
+	return info.terms, info.ok
+}
+
+// c08HelperProduces: fn (single result, no accumulator parameter) returns only
+// the minimum of the candidates it computes — a single returned expression, or
+// alternatives each returned only where it is not larger than the others (the
+// same decision c08FoldCore makes for an inline fold; any problem there leaves
+// the call opaque).  Returns the candidates in fn's terms.
+func (c *Ctx) c08HelperProduces(fn *ssa.Function, depth int) ([]c08Term, bool) {
+	k := c08HelperKey{fn, -1}
+	if h, ok := c08HelperMemo[k]; ok {
+		return h.terms, h.ok
+	}
+	c08HelperMemo[k] = &c08HelperInfo{} // recursion guard
+	info := &c08HelperInfo{}
+	if fn != nil && len(fn.Blocks) > 0 && fn.Signature.Results().Len() == 1 && depth <= 3 {
+		var sinks []c08Alt
+		for _, in := range returnsWhere(fn, 0, nil) {
+			sinks = append(sinks, c08Alt{Val: in.(*ssa.Return).Results[0], At: in})
+		}
+		if len(sinks) > 0 {
+			terms, probs, _ := c.c08FoldCore(sinks, c08FoldOpt{depth: depth, Producers: true})
 			if len(probs) == 0 && len(terms) > 0 {
 				info.ok, info.terms = true, terms
 			}
@@ -748,7 +815,7 @@ func (c *Ctx) c08FoldCore(sinks []c08Alt, opt c08FoldOpt) (terms []c08Term, prob
 					if isAccVal(a) {
 						continue
 					}
-					t2, p2, n2 := c.c08FoldCore([]c08Alt{{Val: a, P: en.P, S: en.S, At: en.At}}, c08FoldOpt{depth: opt.depth + 1})
+					t2, p2, n2 := c.c08FoldCore([]c08Alt{{Val: a, P: en.P, S: en.S, At: en.At}}, c08FoldOpt{depth: opt.depth + 1, Producers: opt.Producers})
 					own, probs, checks = append(own, t2...), append(probs, p2...), checks+n2
 				}
 			} else if h := call.Call.StaticCallee(); h != nil && len(h.Blocks) > 0 && h.Parent() == nil && h.Pkg != nil && en.block() != nil && h.Pkg == en.block().Parent().Pkg {
@@ -772,10 +839,25 @@ func (c *Ctx) c08FoldCore(sinks []c08Alt, opt c08FoldOpt) (terms []c08Term, prob
 					if isAccVal(a) {
 						accStep = true
 					} else {
-						t2, p2, n2 := c.c08FoldCore([]c08Alt{{Val: a, P: en.P, S: en.S, At: en.At}}, c08FoldOpt{depth: opt.depth + 1})
+						t2, p2, n2 := c.c08FoldCore([]c08Alt{{Val: a, P: en.P, S: en.S, At: en.At}}, c08FoldOpt{depth: opt.depth + 1, Producers: opt.Producers})
 						own, probs, checks = append(own, t2...), append(probs, p2...), checks+n2
 					}
 					break
+				}
+				if own == nil && opt.Producers {
+					// no parameter is lowered: the helper may *produce* the value — the
+					// computation of a candidate (or of a minimum of candidates) moved into
+					// a function of its own.  What it returns, in the caller's terms,
+					// replaces the opaque call.
+					if ht, ok := c.c08HelperProduces(h, opt.depth+1); ok {
+						var args []*Expr
+						for _, a := range call.Call.Args {
+							args = append(args, Desc(a))
+						}
+						for _, t := range ht {
+							own = append(own, c08Term{E: c08Subst(t.E, h, args, 0), Loc: en})
+						}
+					}
 				}
 			}
 		}
